@@ -336,7 +336,7 @@ def run_session(rnd, w, dumps, kinds, gen_cfg, nacts=14, max_gens=4, scenarios=N
 # to the check of the property that pins them (counted in extra.deviations_left_to_other_checks)
 _SEL = {'listing-ended-early', 'listing-has-extra-item', 'wrong-event', 'wrong-trace', 'wrong-log-record', 'wrong-sample',
         'clean-listing-differs-from-reference', 'selection-differs-from-reference', 'listing-differs-from-reference'}
-SESSION_OWN = {'C07': set(), 'C06': _SEL, 'C12': _SEL, 'C13': _SEL | {'process-column'}, 'C14': {'process-column'},
+SESSION_OWN = {'C07': set(), 'C06': _SEL | {'process-column'}, 'C12': _SEL, 'C13': _SEL | {'process-column'}, 'C14': {'process-column'},
                'C15': _SEL | {'attribution'}, 'C19': {'wrong-name-table'}}
 
 
